@@ -98,6 +98,33 @@ def do_replay(prop, pid, path):
     return 0
 
 
+def collapse_groups(obs, results):
+    """Alternative proofs of one clause (whole / peeled parts): the clause is discharged when the whole is proved or all parts
+    are; otherwise it is represented by its `whole` obligation with that verdict.  Parts are never reported on their own."""
+    groups = {}
+    for o, r in zip(obs, results):
+        if o.group:
+            groups.setdefault(o.group, {"whole": None, "parts": []})
+            if o.role == "whole":
+                groups[o.group]["whole"] = (o, r)
+            else:
+                groups[o.group]["parts"].append((o, r))
+    out_o, out_r = [], []
+    for o, r in zip(obs, results):
+        if not o.group:
+            out_o.append(o)
+            out_r.append(r)
+            continue
+        if o.role != "whole":
+            continue
+        g = groups[o.group]
+        if r["verdict"] != "proved" and g["parts"] and all(pr["verdict"] == "proved" for _, pr in g["parts"]):
+            r = {"verdict": "proved", "time": sum(pr.get("time", 0) for _, pr in g["parts"]), "backend": g["parts"][0][1].get("backend", "z3") + " (peeled)"}
+        out_o.append(o)
+        out_r.append(r)
+    return out_o, out_r
+
+
 def norm_name(name: str) -> str:
     """Obligation name without path numbers and line offsets (stable under edits that move lines)."""
     return re.sub(r"@L\d+", "@L", re.sub(r"#\d+", "", name))
@@ -140,6 +167,7 @@ def run_property(prop, pid, tier, seed, args, t0):
                 if r["verdict"] != results[k]["verdict"]:
                     results[k] = dict(r, unstable=True) if r["verdict"] != "proved" else dict(results[k], unstable=True)
     results = results or []
+    obs, results = collapse_groups(obs, results)
     # one retry for whatever the solver left open (another seed, twice the budget, less contention): verdicts must not
     # flip because the machine is busy
     open_idx = [k for k, (o, r) in enumerate(zip(obs, results)) if o.kind != "vacuity" and r["verdict"] not in ("proved", "refuted")]
@@ -326,7 +354,7 @@ def run_property(prop, pid, tier, seed, args, t0):
         "lemmas": [o.name for o in lemma_obs],
         "by_backend": by_backend,
         "solver_time_s": round(sum(r.get("time", 0) for r in results), 2),
-        "slow": [o.name for o, r in proved if r.get("time", 0) > budget / 10],
+        "slow": [{"obligation": o.name, "seconds": round(r.get("time", 0), 1), "retried": bool(r.get("retried"))} for o, r in proved if r.get("time", 0) > budget / 10],
         "unstable": [o.name for o, r in zip(obs, results) if r.get("unstable")],
         "vacuity_checks": {"groups": len(vac_groups), "vacuous": vacuous},
         "bounded": [{k: v for k, v in b.items() if k not in ("failures", "samples")} for b in bounded_results],
